@@ -150,10 +150,12 @@ func Harness_C14_wait_recheck() {
 	Harness_helper_initCond(&w)
 	w.count = 1
 	verifDaemon("Harness_C14_wait_recheck$1") // legitimately parked if the new worker started first
-	retStep, p2Step := 0, 0
+	// a logical clock shared by the two goroutines (ordinary memory, so the native replay observes it too)
+	seq, retStep, p2Step := 0, 0, 0
 	go func() {
 		w.Wait()
-		retStep = verifStep()
+		seq++
+		retStep = seq
 	}()
 	go func() {
 		w.mutex.Lock()
@@ -164,7 +166,8 @@ func Harness_C14_wait_recheck() {
 		w.mutex.Unlock()
 		w.mutex.Lock()
 		w.count++
-		p2Step = verifStep()
+		seq++
+		p2Step = seq
 		w.mutex.Unlock()
 	}()
 	verifFinally(func() {
